@@ -12,6 +12,7 @@ import MTVerif.Model.Store
 import MTVerif.Model.Tracer
 import MTVerif.Model.Filter
 import MTVerif.Model.Contain
+import MTVerif.Model.Anno
 namespace MT
 open Sexp
 
@@ -202,6 +203,22 @@ def handle (st : DState) (req : Sexp) : Except String (DState × Sexp) :=
       let ps := Contain.probes (← valOf v)
       .ok (st, .list [.atom (toString ps.length),
                       .atom (toString (ps.filter (fun p => p.2 != .typeOf && !Contain.isExact p.1)).length)])
+  | .list [.atom "updateArg", stg, src, traced, isSelf] => do
+      let st' ← (match stg with | .atom "replicate" => .ok Anno.Strategy.replicate | .atom "ignore" => .ok .ignore
+                                | .atom "omit" => .ok .omit | _ => .error "bad strategy")
+      let src' ← (match src with | .atom "none" => .ok none | x => (natOf x).map some)
+      let tr ← (match traced with | .atom "none" => .ok none | x => (tyOf x).map some)
+      let out := Anno.updateArg st' { src := src', traced := tr, isSelf := isSelf == .atom "true" }
+      .ok (st, match out with | none => .atom "none" | some (.src i) => .list [.atom "src", .atom (toString i)]
+                               | some (.ty t) => .list [.atom "ty", sexpOfTy t])
+  | .list [.atom "updateReturn", stg, src, ret, yld] => do
+      let st' ← (match stg with | .atom "replicate" => .ok Anno.Strategy.replicate | .atom "ignore" => .ok .ignore
+                                | .atom "omit" => .ok .omit | _ => .error "bad strategy")
+      let src' ← (match src with | .atom "none" => .ok none | x => (natOf x).map some)
+      let o (x : Sexp) : Except String (Option Ty) := match x with | .atom "none" => .ok none | x => (tyOf x).map some
+      let out := Anno.updateReturn st' src' (← o ret) (← o yld)
+      .ok (st, match out with | none => .atom "none" | some (.src i) => .list [.atom "src", .atom (toString i)]
+                               | some (.ty t) => .list [.atom "ty", sexpOfTy t])
   | .list [.atom "trig", r, t] => do
       .ok (st, sexpOfBool ((← tyOf t).trig (← rwOf r)))
   | .list [.atom "normal", t] => do
